@@ -86,6 +86,10 @@ pub fn make_case(seed: u64, _tier: Tier, idx: u64) -> Case {
                         let (c, f) = gen::big_cfg(&mut rng, 200);
                         (Source::Big, c, f)
                     }
+                    9 => {
+                        let (c, f) = gen::overlap_cfg(&mut rng);
+                        (Source::Overlap, c, f)
+                    }
                     _ => gen::grammar_for_case(&mut rng, u64::MAX),
                 };
                 let (cfg, force) = if source != Source::Big && rng.chance(0.15) { gen::add_dead_nonterminal(&cfg, &force, &mut rng) } else { (cfg, force) };
@@ -105,7 +109,7 @@ pub fn make_case(seed: u64, _tier: Tier, idx: u64) -> Case {
                         if an.productive[cfg.start] {
                             sc += 3;
                         }
-                        if source == Source::Big {
+                        if source == Source::Big || source == Source::Overlap {
                             sc += 6;
                         }
                         if an.productive.iter().any(|p| !*p) {
@@ -567,7 +571,7 @@ impl EmitRun {
             lines.push(format!("0 0 {ks}"));
             meta.push((i, 0, 0));
             let mut fl = [1usize, 2, 3, 5][i % 4];
-            if i % 4 == 3 && matches!(lr::lr_parse(&r.ctx, &r.lr1, word, None), ParseOutcome::Reject(Some(_))) {
+            if i % 8 == 7 && matches!(lr::lr_parse(&r.ctx, &r.lr1, word, None), ParseOutcome::Reject(Some(_))) {
                 // must be rejected at one of its own tokens: the source may be endless behind them
                 fl = 4;
             }
@@ -662,7 +666,8 @@ impl EmitRun {
             if let Some(nested) = &got_nested {
                 // same input, same payload scheme: the nested call must answer exactly like the outer one
                 // (which is compared with the reference below)
-                if kind != "PANIC" && nested != got {
+                // (an empty report: the outer call gave up before the source reached the point of the nested call)
+                if kind != "PANIC" && !nested.is_empty() && nested != got {
                     w.violation(
                         "nested-parse-answers-differently",
                         "parse called from inside the token source of another parse (same input) returned a different result",
